@@ -24,10 +24,12 @@ CLAIMS = {
                 'paths of fit (must/may write sets, branch-correlated with helper return values), no constructor '
                 'option is overwritten, accumulators are reset; every np.empty buffer is covered before use; no fit '
                 'consumes the global RNG; get_instance returns fresh objects and every configurable __init__ records '
-                'its arguments. Three genuine defects are recorded as known findings (F7, F10a, F10b). Numeric '
-                'equality of refitted models is not computed.',
+                'its arguments; no query method memoises a value derived from fitted state that fit does not reset '
+                '(lru_cache / cached_property on such a method, lazily filled attributes). Three genuine defects are '
+                'recorded as known findings (F7, F10a, F10b). Numeric equality of refitted models is not computed.',
         'note': NOTE,
-        'technique': 'must-dataflow on per-function CFGs, attribute effect summaries, np.empty coverage idiom, RNG effect closure',
+        'technique': 'must-dataflow on per-function CFGs, attribute effect summaries (read/write closures per concrete class), '
+                     'np.empty coverage idiom, RNG effect closure',
     },
     'C20': {
         'text': 'Decides parameter immutability for every parameter of all public callables by a flow-sensitive may-alias '
@@ -137,7 +139,9 @@ CLAIMS['C06'] = {
             'partition of (theta, u, v) taken from the quantifier: C(0,v) = C(u,0) = 0, C(1,1) = 1, range [0,1] and NaN-freedom on '
             'the closed square are proved where the intervals allow, uniform margins / Frechet bounds / the independence value can '
             'only be refuted (a box whose result interval is disjoint from the admissible set, or NaN for every point), everything '
-            'else is reported undecided. 2-increasingness, generator identity and ordering in theta are not decided.',
+            'else is reported undecided. D5: an early-return shortcut of a CDF that is reachable after check_fit must be the '
+            'independence value u*v (sibling cross-check through path conditions). 2-increasingness, generator identity and ordering '
+            'in theta are not decided.',
     'note': NOTE,
     'technique': 'AC normal form of expressions (syntactic), reduction enumeration with triage table, guard dominance, '
                  'interval abstract interpretation with path alternatives',
@@ -148,7 +152,8 @@ CLAIMS['C07'] = {
             'D4 (interval abstract interpretation over boxes of (theta, u, v)): density >= 0 and never NaN is proved for all three '
             'families; partial_derivative(0, v) = 0, (1, v) = 1, range [0,1] and the independence values (h = u, c = 1 at Gumbel '
             'theta = 1 and for Independence) are proved, refuted or undecided per family - this rule exposed the fixed defects F20, '
-            'F21, F22. h = dC/dv and c = d2C/du dv as identities, monotonicity and integrals are not decided.',
+            'F21, F22. D5: reachable early-return shortcuts of the density / conditional CDF must be the independence values 1 / u. '
+            'h = dC/dv and c = d2C/du dv as identities, monotonicity and integrals are not decided.',
     'note': NOTE,
     'technique': 'AC normal form of expressions, reduction enumeration with triage table, interval abstract interpretation',
 }
@@ -177,10 +182,14 @@ CLAIMS['C03'] = {
             'rule that exposed fixed defect F15); aliases and the selecting wrapper forward to the same-named method; parameter keys '
             'of _fit/_fit_constant equal SciPy\'s names and unpacked fit results are stored under the right names; the degenerate-'
             'distribution state machine (exactly four replaced methods and their undo, right-continuous unit step, _is_constant / '
-            '_extract_constant agree with _fit_constant); wiring of the KDE quantile search (root function, masks, brackets, +-inf). '
-            'Monotonicity, limits, pdf = CDF\', inverse identities and the KDE CDF formula are not decided.',
+            '_extract_constant agree with _fit_constant, decided on abstract key/value sets of the parameter dicts); wiring of the KDE '
+            'quantile search (root function, masks, brackets, +-inf); lane order of the vectorised methods (a permutation applied to the '
+            'points is undone before values are written back: permutation words over argsort gathers) and complete coverage of a result '
+            'buffer that is filled block by block. Monotonicity, limits, pdf = CDF\', inverse identities, the KDE CDF formula and the '
+            'correctness of a hand-written replacement of a delegated method are not decided.',
     'note': NOTE,
-    'technique': 'per-subclass delegation table against the SciPy contract table; sibling agreement; mask/closure wiring checks',
+    'technique': 'per-subclass delegation table with constant propagation through helpers; dict-key abstract evaluation; lane-order kind '
+                 '(permutation words); block-coverage idioms; mask/closure wiring checks',
 }
 CLAIMS['C04'] = {
     'text': 'PARTIAL: location/scale equivariance of every parametric _fit by dimension typing (loc is a point of the data axis, scale a '
@@ -206,10 +215,11 @@ CLAIMS['C16'] = {
             'tree k-1) and number of edges (n_nodes-1 per builder, by loop cardinality; one dead branch triaged) ; edge index = '
             'position; the child-edge set algebra (A & B, sorted(A ^ B), parents); proximity (|A|B| = level+1, consecutive edges, '
             'anchor); star/path shape by construction and no stale candidate carried through the greedy path loop; polarity of '
-            'the greedy choices and Kendall tau of the training table as their input; every edge carries one select_copula result. '
+            'the greedy choices and Kendall tau of the training table as their input; every edge carries one select_copula result. The '
+            'variable sets are evaluated in a symbolic set domain (atoms L, R, *D of each parent; helpers with *args followed). '
             'Spanning-tree property for every ordering of tau values and "no pair conditioned twice" depend on runtime values, not decided.',
     'note': NOTE,
-    'technique': 'loop-cardinality and loop-carried-state idioms, AC normal form of bounds, set-algebra pattern checks',
+    'technique': 'loop-cardinality and loop-carried-state idioms, AC normal form of bounds, symbolic set domain for the variable sets',
 }
 CLAIMS['C17'] = {
     'text': 'PARTIAL: h-function and tau computation read an edge\'s inputs through the same accessor and copulas are selected on those '
@@ -217,9 +227,12 @@ CLAIMS['C17'] = {
             'index; a rebuilt pair copula takes family and theta from the same edge; likelihood recursion (log of pair density, tree '
             'sum, next matrix cells and their rank 0 - the rule that exposed fixed defect F19 - matrix handed from tree to tree); '
             'no entropy or uninitialised buffer in get_likelihood; sample() schema (rows, columns, clipped probabilities, rank-0 '
-            'stores - F18). Equality with the pair-copula decomposition and the law of samples are not decided.',
+            'stores - F18); D6: parents[0] of an edge is the parent that owns its L node - the construction site orders the parents '
+            'like the (sorted) conditioned pair and Edge.get_likelihood pairs L with parents[0] (the clause behind fixed defect F23). '
+            'Equality with the pair-copula decomposition and the law of samples are not decided.',
     'note': NOTE,
-    'technique': 'accessor/sibling agreement, rank-kind and length-kind abstract interpretation, RNG effect closure, np.empty coverage',
+    'technique': 'accessor/sibling agreement, ownership convention of parent edges, rank-kind and length-kind abstract interpretation, '
+                 'RNG effect closure, np.empty coverage',
 }
 
 NOT_APPLICABLE = {}
